@@ -1,8 +1,11 @@
 #!/usr/bin/env python3
 """Regenerates MANIFEST.json from scripts/manifest_src.json (claimed checks) + properties.jsonl (ids)."""
 import json, os
-V = "/verif"
+V = os.path.dirname(os.path.dirname(os.path.abspath(__file__)))
 src = json.load(open(f"{V}/scripts/manifest_src.json"))
+import glob
+for f in sorted(glob.glob(f"{V}/scripts/manifest.d/*.json")):
+    src["claimed"][os.path.basename(f)[:-5]] = json.load(open(f))
 ids = [json.loads(l)["id"] for l in open(f"{V}/properties.jsonl")]
 claimed = src["claimed"]
 checks = []
